@@ -12,7 +12,7 @@ import random
 
 import numpy as np
 
-from .. import tlc, trace, gen
+from .. import tlc, trace, gen, realdata
 from ..common import Evidence, Reporter, import_mir_eval
 from ..relations import enc, call
 
@@ -106,11 +106,19 @@ def run(tier, seed):
         return bool(np.min(np.diff(a)) > 2 * win and np.min(np.diff(b)) > 2 * win)
 
     n = 120 if thorough else 25
+    n_real = 0
     for name, t in T.items():
+        cases = []
         for k in range(n):
             shape = t.shapes[k % len(t.shapes)]
             args = t.gen(rng, shape)
             kws = [{}] + ([dict(rng.sample(sorted(t.kw_pool.items(), key=str), rng.randint(1, len(t.kw_pool)))) ] if t.kw_pool else [])
+            cases.append((args, kws))
+        # the repository's own annotation fixtures (real-world sizes and vocabularies), default parameters
+        for nm, ra in realdata.pairs(me, name, limit=None if thorough else 3):
+            cases.append((ra, [{}]))
+            n_real += 1
+        for args, kws in cases:
             for kw in kws:
                 r = call(t.evaluate, *args, **kw)
                 fnn = name + ".evaluate"
@@ -189,6 +197,7 @@ def run(tier, seed):
         ev.case((e["fn"], str(meta[e["tid"]][1])[:300], str(meta[e["tid"]][2])),
                 nontrivial=any(v["c"] == "fin" and v["m9"] not in (0, 10 ** 9) for v in e["vals"]))
     ev.sample({"fn": events[0]["fn"], "values": meta[1][3]})
+    ev.cov["repository_fixture_pairs_scored"] = n_real
     ev.cov["rule"] = ("every evaluate() and metric function of the 13 tasks on seeded valid inputs of all shapes with default and "
                       "non-default in-range parameters; each returned value classified by Trace_Range; distinct = distinct "
                       "(function, input, parameters); non-trivial = some value strictly between 0 and 1")
